@@ -305,7 +305,7 @@ int main(void)
 {
 	br_ssl_engine_context the_context;
 #ifdef NATIVE_REPLAY
-	memset(&the_context, 0, sizeof the_context);
+	NATIVE_FILL(&the_context, sizeof the_context);
 #endif
 	ccp = &the_context;
 #if OP == OP_BASE
